@@ -106,6 +106,15 @@ impl P {
     pub fn roles(&self) -> [Role; 3] {
         shape_roles(self.shape)
     }
+    /// timeout of one-shot key `k`: in shape 2 the second one-shot key has a timeout 2 ms longer, so
+    /// that "the timeout restarts at the value of the most recently pressed one-shot key" is visible
+    pub fn t_of(&self, k: usize) -> u16 {
+        if self.shape == 2 && k == 1 {
+            self.t + 2
+        } else {
+            self.t
+        }
+    }
     pub fn render(&self) -> String {
         let roles = self.roles();
         let mut s = String::new();
@@ -114,7 +123,7 @@ impl P {
         }
         s.push_str("(defsrc a b c)\n");
         let alias = self.t % 2 == 1;
-        s.push_str(&format!("(deflayer l0 {})\n", roles.iter().map(|r| render_os(self.end, alias, self.t, r)).collect::<Vec<_>>().join(" ")));
+        s.push_str(&format!("(deflayer l0 {})\n", roles.iter().enumerate().map(|(i, r)| render_os(self.end, alias, self.t_of(i), r)).collect::<Vec<_>>().join(" ")));
         if roles.iter().any(|r| *r == Role::OsLayer) {
             s.push_str(&format!("(deflayer l1 {})\n", roles.iter().map(|r| if let Role::Plain(_, a) = r { a.to_string() } else { "_".to_string() }).collect::<Vec<_>>().join(" ")));
         }
@@ -241,13 +250,21 @@ impl Model {
             }
             self.released.retain(|x| *x != c);
         }
-        self.timeout = self.p.t;
+        self.timeout = self.p.t_of(c);
         self.keys.push_back(c);
         self.max_stack = self.max_stack.max(self.keys.len() as u64);
     }
 }
 
 // ------------------------------------------------------------------ lockstep
+
+/// validation aid: with KV_C06_NO_MODEL=1 the model comparison is switched off, so that a seeded break shows
+/// whether the model-free stream invariants fire on their own (never set in registered runs)
+fn no_model() -> bool {
+    static V: std::sync::OnceLock<bool> = std::sync::OnceLock::new();
+    *V.get_or_init(|| std::env::var("KV_C06_NO_MODEL").map(|v| v == "1").unwrap_or(false))
+}
+
 
 type OutEv = (u64, bool, u16);
 
@@ -291,7 +308,7 @@ impl Lock {
         if !m.is_empty() {
             self.mtrace.push((t, m.clone()));
         }
-        if k != m {
+        if k != m && !no_model() {
             return Some(Bad { sig: format!("C06:model:{}", classify(&k, &m)), what: format!("tick {t}: kanata wrote [{}], the one-shot model expects [{}]", fmt_tick(&k), fmt_tick(&m)) });
         }
         None
@@ -327,7 +344,7 @@ impl Lock {
                 _ => {}
             }
         }
-        let bound = 3 * (self.p.t as u64 + self.p.red as u64) + 40 + 8 * h.len() as u64;
+        let bound = 3 * (self.p.t as u64 + 2 + self.p.red as u64) + 40 + 8 * h.len() as u64;
         let mut n = 0;
         while n < bound {
             if let Some(b) = self.tick() {
@@ -472,18 +489,19 @@ fn family_check(p: &P, keys: &[usize], gaps: &[usize], gv: &[u32], outs: &[OutEv
     if let Some(o2) = o2 {
         if keys.len() == 5 && keys[0] == o && keys[1] == o && keys[2] == o2 && keys[3] == o2 && keys[4] == pk {
             let Some(first) = ctx.first() else { return bad("f:key-missing", "the following key produced no press".into()) };
-            let second_in_time = pr[4] < pr[2] + t;
+            let t2 = p.t_of(o2) as u64;
+            let second_in_time = pr[4] < pr[2] + t2;
             let exp1 = pr[2] <= t && second_in_time;
             let exp2 = second_in_time;
             let got1 = modified_by(&roles, o, pk, first.1, &first.2);
             let got2 = modified_by(&roles, o2, pk, first.1, &first.2);
             if got2 != exp2 {
-                return bad(if exp2 { "f:stacked-second-not-applied" } else { "f:stacked-second-applied-after-expiry" }, format!("second one-shot processed in tick {}, key in tick {} (T={t}); {}", pr[2], pr[4], desc(0)));
+                return bad(if exp2 { "f:stacked-second-not-applied" } else { "f:stacked-second-applied-after-expiry" }, format!("second one-shot (T={t2}) processed in tick {}, key in tick {}; {}", pr[2], pr[4], desc(0)));
             }
             if got1 != exp1 {
                 return bad(
                     if exp1 { "f:stacking-did-not-restart-timeout" } else { "f:first-applied-after-expiry" },
-                    format!("first one-shot in tick 1, second processed in tick {}, key in tick {} (T={t}): expected the first one-shot {}; {}", pr[2], pr[4], if exp1 { "still applied (timeout restarted by the second)" } else { "expired" }, desc(0)),
+                    format!("first one-shot (T={t}) in tick 1, second (T={t2}) processed in tick {}, key in tick {}: expected the first one-shot {}; {}", pr[2], pr[4], if exp1 { "still applied (timeout restarted by the second)" } else { "expired" }, desc(0)),
                 );
             }
             return Some(("f:stacking-combines-and-restarts", Ok(())));
@@ -585,6 +603,10 @@ fn kind_of(i: usize) -> Kind2 {
 }
 
 impl Cfg2 {
+    /// the one-shot keys have three different timeouts (t, t+5, t+11)
+    fn t_of(&self, i: usize) -> u16 {
+        self.t + [0u16, 5, 11][i % 3]
+    }
     fn render(&self) -> String {
         let mut s = String::new();
         if self.red != 5 {
@@ -595,9 +617,9 @@ impl Cfg2 {
         for i in 0..N_OS {
             let name = self.ends[i].name(i % 2 == 0);
             row.push(match &self.kinds[i] {
-                Kind2::Layer(l) => format!("({name} {} (layer-while-held l{l}))", self.t),
-                Kind2::Keys(v) if v.len() == 1 => format!("({name} {} {})", self.t, v[0]),
-                Kind2::Keys(v) => format!("({name} {} {}{})", self.t, match v[0] { "lalt" => "A-", "lctl" => "C-", _ => "S-" }, v[1]),
+                Kind2::Layer(l) => format!("({name} {} (layer-while-held l{l}))", self.t_of(i)),
+                Kind2::Keys(v) if v.len() == 1 => format!("({name} {} {})", self.t_of(i), v[0]),
+                Kind2::Keys(v) => format!("({name} {} {}{})", self.t_of(i), match v[0] { "lalt" => "A-", "lctl" => "C-", _ => "S-" }, v[1]),
             });
         }
         s.push_str(&format!("(deflayer l0 {} {} {})\n", row.join(" "), PLAIN_OUT[0][0], PLAIN_OUT[1][0]));
@@ -671,7 +693,7 @@ fn plan2(seed: u64, idx: u64) -> Plan2 {
         h.push(Ev::R(code(PLAIN_PHYS[p2])));
     }
     // late probe: long after everything must have expired
-    h.push(Ev::T(cfg.t as u32 + cfg.red as u32 + 25));
+    h.push(Ev::T(cfg.t as u32 + 11 + cfg.red as u32 + 25));
     h.push(Ev::P(code(PLAIN_PHYS[0])));
     h.push(Ev::T(2));
     h.push(Ev::R(code(PLAIN_PHYS[0])));
@@ -872,7 +894,7 @@ impl C06Check {
             }
         };
         let codes = lock.codes;
-        let tail = p.t as u32 + 2;
+        let tail = p.t as u32 + 4;
         let mut bads: Vec<(Vec<Ev>, Bad, Vec<usize>, Vec<usize>)> = vec![];
         let mut lens: Vec<(usize, Option<Vec<usize>>)> = (2..=n).map(|l| (l, None)).collect();
         if n < 5 {
